@@ -933,6 +933,9 @@ impl<'s> Tokenizer<'s> {
     }
 }
 
+/// The largest width or precision accepted in a format string.
+const MAX_FORMAT_NUMBER: usize = 100_000_000;
+
 fn parse_number(cursor: &mut Cursor) -> Result<Option<usize>, Error> {
     let digit_count = cursor
         .rest_bytes()
@@ -953,6 +956,16 @@ fn parse_number(cursor: &mut Cursor) -> Result<Option<usize>, Error> {
             )
             .with_source(e)
         }));
+        // widths and precisions turn into allocations of that size
+        if num > MAX_FORMAT_NUMBER {
+            return Err(Error::new(
+                ErrorKind::InvalidOperation,
+                format!(
+                    "number in the format string at offset {} is too large",
+                    cursor.position()
+                ),
+            ));
+        }
         Ok(Some(num))
     }
 }
